@@ -4,6 +4,7 @@ import (
 	"encoding/json"
 	"fmt"
 	"sync"
+	"sync/atomic"
 	"time"
 
 	"verif/harness/internal/core"
@@ -143,8 +144,14 @@ func Check(env *core.Env, rep *core.Report) *core.Result {
 	execs := make([][]Event, nTraces)
 	oks := make([]bool, nTraces)
 	core.Parallel(nTraces, 32, func(i int) {
+		if atomic.LoadInt32(&stuck) >= 6 {
+			return
+		}
 		r := env.Rand(fmt.Sprintf("trace-%d", i))
 		log, ok, err := RecordRandom(jobs[i].cfg, r, jobs[i].cancel)
+		if err == nil && !ok {
+			atomic.AddInt32(&stuck, 1)
+		}
 		if err != nil {
 			rep.Add(core.Finding{Prop: "C05", Key: "C05:graph-build-failed-in-scheduler-driver", What: err.Error(), Detail: jobs[i].cfg})
 			return
